@@ -2,7 +2,7 @@
 # usage: seed_confirm.sh <PID> <n>   (n = "" or 2: reads /tmp/seed-<PID>/seeded_out<n>/)
 # Confirms a seeded change in its scratch worktree (demo passes without, fails with, suite still 227 passed),
 # stores it under /verif/seeded/<PID>-<k>/ and runs the property's quick check against it in a scratch copy.
-pid="$1"; n="${2:-}"; wt="/tmp/seed-$pid"; src="$wt/seeded_out$n"
+pid="$1"; n="${2:-}"; sfx="${3:-}"; wt="/tmp/seed-$pid$sfx"; src="$wt/seeded_out$n"
 [ -f "$src/patch.diff" ] || { echo "no $src/patch.diff"; exit 2; }
 k=1; while [ -d "/verif/seeded/$pid-$k" ]; do k=$((k+1)); done
 dst="/verif/seeded/$pid-$k"
